@@ -33,12 +33,38 @@ def run(prog: Program, rep, tier: str) -> None:
     non_interference(prog, rep, dc, sd, sv)
     wiring(prog, rep, dc)
     coverage(prog, rep, sd)
+    evaluator_passthrough(prog, rep)
     # the check runs on the TRANSFORMED problem (scaled, slacks added): a correct user problem passes only if the wrapper scales
     # value, first and second derivative consistently - C04's exponent / slack-derivative agreement rules on the same constructs
     from . import c04
     from .c01 import _SubReport
     sub = _SubReport(rep, keep=("scaling-exponents", "scaled-problem-exponents", "slack-jacobian", "slack-padding", "slack-cons"))
     c04.run(prog, sub, "quick")
+
+
+def evaluator_passthrough(prog, rep) -> None:
+    """the derivative check obtains f and its derivative through the evaluator: what the evaluator returns must be the
+    callback's own value (cast to the working dtype at most) - not a transformed, transposed or re-assembled copy - or the
+    reported rows / columns are not those of the user's derivative."""
+    n = 0
+    for cname in ("SimpleEvaluator", "ValidatingEvaluator"):
+        c = prog.cls(f"pygradflow.eval.{cname}")
+        for mname, cb in (("_eval_obj", "obj"), ("_eval_obj_grad", "obj_grad"), ("_eval_cons", "cons"), ("_eval_cons_jac", "cons_jac"), ("_eval_lag_hess", "lag_hess")):
+            m = c.methods.get(mname)
+            if m is None:
+                raise AnalysisError(f"{cname}.{mname} has vanished")
+            ff = facts_for(m)
+            ps = [p for p in m.params if p != "self"]
+            want = f"self.problem.{cb}({', '.join(ps)})"
+            for r in returns_of(m):
+                v = U(ff.resolved(r, r.value))
+                empty = any(f[0] == "==" and f[2] == "0" and f[1].endswith("num_cons") for f in ff.at(r).facts)
+                if empty:
+                    continue   # the constant result for a problem without constraints
+                n += 1
+                rep.check(v in (want, f"astype({want}, self.dtype)"), "check-sees-user-values", m.qualname, short(r),
+                          f"{cname}.{mname} hands on the value of problem.{cb} itself, cast to the working dtype at most (found {v[:90]})", m.loc(r))
+    rep.pin("evaluator returns handing on callback values", n, 10)
 
 
 def non_interference(prog, rep, dc: FuncInfo, sd: FuncInfo, sv: FuncInfo) -> None:
@@ -87,6 +113,16 @@ def non_interference(prog, rep, dc: FuncInfo, sd: FuncInfo, sv: FuncInfo) -> Non
     timers = [s for s in fs.order if isinstance(s.stmt, ast.Assign) and isinstance(s.stmt.value, ast.Call) and dotted(s.stmt.value.func) == "Timer"]
     rep.check(bool(timers) and all(t.index > si.index for t in timers), "check-before-timer", sv.qualname, short(timers[0].stmt) if timers else "Timer(...)",
               "the time budget starts after the derivative check, so the check cannot change when TimeLimit is reached", sv.loc(timers[0].stmt) if timers else sv.loc())
+    # nothing in solve() that the algorithm reads may be (re)bound under a condition on the derivative-check option
+    for q in fs.order:
+        if not any("deriv_check" in (f[1] + (f[2] or "")) for f in q.facts):
+            continue
+        st = q.stmt
+        if isinstance(st, (ast.If, ast.For, ast.While, ast.Try, ast.With)):
+            continue
+        stores = [n for n in ast.walk(st) if isinstance(n, (ast.Name, ast.Attribute, ast.Subscript)) and isinstance(getattr(n, "ctx", None), (ast.Store, ast.Del))]
+        rep.check(not stores, "check-result-unused", sv.qualname, short(st),
+                  "statements of solve() that depend on the derivative-check option bind nothing (the solve must start from the same iterate with and without the check)", sv.loc(st))
     # _deriv_check returns nothing
     rets = [r for r in returns_of(sd) if r.value is not None]
     rep.check(not rets, "check-result-unused", sd.qualname, "return", "_deriv_check returns nothing", sd.loc())
